@@ -3,6 +3,7 @@ package an
 import (
 	"fmt"
 	"go/types"
+	"sort"
 	"strings"
 
 	"golang.org/x/tools/go/ssa"
@@ -274,21 +275,9 @@ func framingRules(p *Prog, r *Report, R string) {
 		if !f.OK() {
 			continue
 		}
-		rd := f.Ev("call", "binary.Read")
-		okRd := len(rd) == 1 && rd[0].Args[1] == "encoding/binary.BigEndian" && rd[0].Args[2] == "$sz"
-		if okRd {
-			// sz is a 64-bit integer
-			call := rd[0].In.(*ssa.Call)
-			okRd = false
-			if mi, ok := call.Call.Args[2].(*ssa.MakeInterface); ok {
-				if pt, ok := mi.X.Type().Underlying().(*types.Pointer); ok {
-					if b, ok := pt.Elem().Underlying().(*types.Basic); ok && (b.Kind() == types.Int64 || b.Kind() == types.Uint64) {
-						okRd = true
-					}
-				}
-			}
-		}
-		r.Check(okRd, R, f.Name+"/length-read", rd.Pos(p), "length read as 8 bytes big-endian (complete read)", "the length prefix is not read with binary.Read(BigEndian) into a 64-bit integer: "+argsOf(rd))
+		L, rd, how := recvLength(p, f)
+		okRd := L != ""
+		r.Check(okRd, R, f.Name+"/length-read", rd.Pos(p), "length read as 8 bytes big-endian by a complete read ("+how+")", "the length prefix is not read completely as a 64-bit big-endian integer (binary.Read(BigEndian, &int64), or io.ReadFull of 8 bytes + BigEndian.Uint64): "+how)
 		raw := f.Ev("call", "Conn.Read")
 		if t == "connipc" {
 			ok1 := len(raw) == 1 && raw[0].Args[1] == "$one[:]" && len(rd) == 1 && rd.DominatedBy(raw)
@@ -308,11 +297,16 @@ func framingRules(p *Prog, r *Report, R string) {
 		} else {
 			r.Check(len(raw) == 0, R, f.Name+"/no-partial-reads", raw.Pos(p), "no bare Read (which may return short)", "the stream receiver uses a bare Conn.Read, which may return fewer bytes than asked")
 		}
-		rf := f.Ev("call", "io.ReadFull")
-		okb := len(rf) == 1 && strings.HasSuffix(rf[0].Args[1], ".Body") && strings.HasPrefix(rf[0].Args[1], "mangos.NewMessage(")
+		var rf Sel
+		for _, e := range f.Ev("call", "io.ReadFull") {
+			if strings.HasSuffix(e.Args[1], ".Body") {
+				rf = append(rf, e)
+			}
+		}
+		okb := len(rf) == 1 && strings.HasPrefix(rf[0].Args[1], "mangos.NewMessage(")
 		r.Check(okb, R, f.Name+"/payload-readfull", rf.Pos(p), "payload read completely into the new message's Body", "the payload is not read with io.ReadFull into the Body of the message being returned")
 		bs := f.Ev("store", "*.Body")
-		r.Check(len(bs) == 1 && strings.HasSuffix(bs[0].Args[0], ".Body[0:$sz]"), R, f.Name+"/body-length", bs.Pos(p), "Body = Body[0:sz]", "Body is not sized to exactly the announced length")
+		r.Check(len(bs) == 1 && L != "" && strings.HasSuffix(bs[0].Args[0], ".Body[0:"+L+"]"), R, f.Name+"/body-length", bs.Pos(p), "Body = Body[0:sz]", "Body is not sized to exactly the announced length")
 		var okRet Sel
 		for _, e := range f.Ev("return", "") {
 			if len(e.Args) == 2 && e.Args[1] == "nil" && strings.HasPrefix(e.Args[0], "mangos.NewMessage(") {
@@ -415,6 +409,8 @@ func wsRules(p *Prog, r *Report, R string) {
 	}
 	// the upgrader answers with the listener's own name (wherever the listener is built)
 	oku, oks := false, false
+	var clobber []string
+	nSub := 0
 	for _, fn := range p.Funcs {
 		if rel, _ := p.FuncRel(fn); rel != "transport/ws" {
 			continue
@@ -422,6 +418,17 @@ func wsRules(p *Prog, r *Report, R string) {
 		for _, e := range p.Events(fn) {
 			if e.Kind != "store" {
 				continue
+			}
+			// the upgrader is configured once: nothing replaces it (or its sub-protocol
+			// list) afterwards, or the 101 response stops naming the SP sub-protocol
+			if strings.HasSuffix(e.What, ".ug") {
+				clobber = append(clobber, p.FuncName(fn)+" replaces the whole upgrader at "+p.InstrPos(e.In))
+			}
+			if strings.HasSuffix(e.What, ".ug.Subprotocols") {
+				nSub++
+				if nSub > 1 {
+					clobber = append(clobber, p.FuncName(fn)+" overwrites Subprotocols at "+p.InstrPos(e.In))
+				}
 			}
 			if strings.Contains(e.Args[0], `.proto.SelfName + ".sp.nanomsg.org")`) {
 				oku = true
@@ -431,6 +438,7 @@ func wsRules(p *Prog, r *Report, R string) {
 			}
 		}
 	}
+	r.Check(len(clobber) == 0, R, "ws/upgrader-configured-once", "-", "the upgrader and its sub-protocol list are set once, when the listener is built", "the listener's websocket upgrader is replaced after construction, dropping Subprotocols: the handshake response no longer selects <SelfName>.sp.nanomsg.org and a conforming peer (RFC 6455 §4.1) must fail the connection: "+strings.Join(clobber, "; "))
 	r.Check(oku && oks, R, "ws/upgrader-offers-self-name", "-", "upgrader answers with SelfName + suffix", "the upgrader does not answer with <SelfName>.sp.nanomsg.org")
 }
 
@@ -450,4 +458,113 @@ func inprocRules(p *Prog, r *Report, R string) {
 	r.Check(okc, R, "inproc.Send/header-then-body", ap.Pos(p), "Body receives Header then Body", "inproc payload is not Header followed by Body: "+argsOf(ap))
 	snd := sd.Ev("select-send", "recv.wq")
 	r.Check(len(snd) == 1 && strings.HasPrefix(snd[0].Args[0], "mangos.NewMessage("), R, "inproc.Send/queues-the-copy", snd.Pos(p), "the copy (not the caller's message) is queued to the peer", "inproc Send queues the caller's own message to the peer (ownership is shared across sockets)")
+}
+
+// acceptLoopRules: the goroutine that accepts connections does nothing per connection that
+// waits for the peer: inside the loop around Listener.Accept the only network wait is the
+// Accept itself (the SP — and TLS — negotiation runs on the handshaker's goroutines).  A
+// synchronous read/handshake there lets one silent peer hold up every later one.
+func acceptLoopRules(p *Prog, r *Report, R string) {
+	n := 0
+	e4 := p.E4()
+	for _, fn := range p.Funcs {
+		rel, _ := p.FuncRel(fn)
+		if !strings.HasPrefix(rel, "transport/") {
+			continue
+		}
+		EachInstr(fn, func(in ssa.Instruction) {
+			c := CallOf(in)
+			if c == nil {
+				return
+			}
+			isAccept := c.IsInvoke() && c.Method.Name() == "Accept" && strings.Contains(typeShort(c.Value.Type()), "Listener")
+			if sc := c.StaticCallee(); sc != nil && pkgPathOf(sc) == "net" && strings.HasPrefix(sc.Name(), "Accept") {
+				isAccept = true
+			}
+			if !isAccept {
+				return
+			}
+			_, body := loopBody(in.Block())
+			if body == nil {
+				return
+			}
+			n++
+			key := p.FuncName(fn) + "/accept-loop"
+			var bad []string
+			for b := range body {
+				for _, x := range b.Instrs {
+					if x == in {
+						continue
+					}
+					if _, isGo := x.(*ssa.Go); isGo {
+						continue
+					}
+					if bi := directBlocking(x); bi != nil && bi.Kind == "net-io" {
+						bad = append(bad, bi.What+" at "+p.InstrPos(x))
+						continue
+					}
+					for _, callee := range p.E1().syncCallees[x] {
+						if bc := e4.may[callee]; bc != nil && bc.Info.Kind == "net-io" {
+							bad = append(bad, bc.Info.What+" (through "+strings.Join(bc.Chain, " -> ")+") at "+p.InstrPos(x))
+						}
+					}
+				}
+			}
+			sort.Strings(bad)
+			r.Check(len(bad) == 0, R, key, p.InstrPos(in), "the only network wait in the accept loop is Accept itself", "the accept loop waits for the accepted peer ("+strings.Join(bad, "; ")+"): a peer that connects and stays silent blocks the loop, and every later peer is never accepted")
+		})
+	}
+	r.Count("wire.accept_loops", n)
+}
+
+// recvLength: the canonical description of the announced frame length in a stream Recv,
+// for either complete-read idiom:
+//   binary.Read(c, binary.BigEndian, &sz)           (sz a 64-bit integer)   -> "$sz"
+//   io.ReadFull(c, buf[:]) ; int64(BigEndian.Uint64(buf[:]))  (buf [8]byte) -> that value
+// Returns "" when neither is found; the second result is the read event.
+func recvLength(p *Prog, f *F) (string, Sel, string) {
+	rd := f.Ev("call", "binary.Read")
+	if len(rd) == 1 && rd[0].Args[1] == "encoding/binary.BigEndian" && strings.HasPrefix(rd[0].Args[2], "$") {
+		call := rd[0].In.(*ssa.Call)
+		if mi, ok := call.Call.Args[2].(*ssa.MakeInterface); ok {
+			if pt, ok := mi.X.Type().Underlying().(*types.Pointer); ok {
+				if b, ok := pt.Elem().Underlying().(*types.Basic); ok && (b.Kind() == types.Int64 || b.Kind() == types.Uint64) {
+					return rd[0].Args[2], rd, "binary.Read into " + rd[0].Args[2]
+				}
+			}
+		}
+		return "", rd, "binary.Read target is not a 64-bit integer"
+	}
+	// io.ReadFull of an 8-byte array, then Uint64 of the same array
+	for _, e := range f.Ev("call", "io.ReadFull") {
+		call := e.In.(*ssa.Call)
+		sl, ok := call.Call.Args[1].(*ssa.Slice)
+		if !ok || sl.Low != nil || sl.High != nil {
+			continue
+		}
+		pt, ok := sl.X.Type().Underlying().(*types.Pointer)
+		if !ok {
+			continue
+		}
+		arr, ok := pt.Elem().Underlying().(*types.Array)
+		if !ok || arr.Len() != 8 {
+			continue
+		}
+		for _, u := range f.Ev("call", "binary.(bigEndian).Uint64") {
+			uc := u.In.(*ssa.Call)
+			if s2, ok := uc.Call.Args[len(uc.Call.Args)-1].(*ssa.Slice); ok && s2.X == sl.X && InstrDominates(e.In, u.In) {
+				// the value the code works with: the conversion of the call result, if any
+				var v ssa.Value = uc
+				if refs := uc.Referrers(); refs != nil {
+					for _, ref := range *refs {
+						if cv, ok := ref.(*ssa.Convert); ok {
+							v = cv
+						}
+					}
+				}
+				return Desc(v), Sel{e}, "io.ReadFull of 8 bytes + BigEndian.Uint64"
+			}
+		}
+	}
+	return "", rd, "no complete 8-byte big-endian read found: " + argsOf(rd)
 }
